@@ -147,4 +147,59 @@ theorem free_step3 (cfg : Cfg) (hfix : cfg.fixCx = true) (rk : Nat → Nat) (f :
     have hmono : ∀ y, Outside s x y → Outside (freeBegin s x xb d' logged) x y := outside_stable i.wf k12
     exact k12.trans ((k23.mono hmono).trans ((keeps_remove s3 x hux).trans (Keeps.of_shapeEq _ f2)))
 
+
+theorem unlink_step3 (cfg : Cfg) (rk : Nat → Nat) (f : Nat) (hf3 : FreeStmt3 cfg rk f) :
+    UnlinkStmt3 cfg rk (f + 1) := by
+  intro s ctx x xb i hx hxk hnp hpar hnull hpb hnr hst hoof
+  simp only [run, hx, hpar, ne_eq, not_true_eq_false, if_false] at hoof ⊢
+  cases hrefs : xb.refs with
+  | nil =>
+    simp only [hrefs] at hoof ⊢
+    exact hf3 s x xb i hx hxk hrefs hnp hnull hpb hnr hst hoof
+  | cons r rest =>
+    simp only [hrefs] at hoof ⊢
+    obtain ⟨rb, hr, hrk⟩ := i.wf.refLive x xb r hx (by rw [hrefs]; simp)
+    simp only [hr] at hoof ⊢
+    have hrnp : rb.kind ≠ .plain := by rw [hrk]; simp
+    obtain ⟨lc, lr, ld, lp⟩ := i.wf.leaf r rb hr hrnp
+    have hxr : x ≠ r := by intro e; subst e; rw [hx] at hr; cases hr; exact hrnp hxk
+    have hq : rb.parent ≠ some x := by
+      intro e; have := i.ranked.refLt r rb x x hr hrk e; omega
+    have hself : xb.parent ≠ some x := by
+      intro e; have := i.ranked.parentLt x xb x hx e; omega
+    have hps := promoteMove_shapeEq cfg s x xb rb rest (orNull s ctx) hxk
+    have hPr : (promoteS s x rb.parent rest).get r = some rb := by
+      rw [promoteS_get hx rb.parent rest hq hself]
+      have h1 : rb.parent ≠ some r := by
+        intro e
+        obtain ⟨po, hpo, hpk, -⟩ := i.wf.parentLive r rb r hr e
+        rw [hr] at hpo; cases hpo; exact hrnp hpk
+      have h2 : xb.parent ≠ some r := by
+        intro e
+        obtain ⟨po, hpo, hpk, -⟩ := i.wf.parentLive x xb r hx e
+        rw [hr] at hpo; cases hpo; exact hrnp hpk
+      simp [Ne.symm hxr, hr, h1, h2]
+    obtain ⟨rb', hr', e1, e2, e3, e4, e5, e6⟩ := hps.get hPr
+    cases f with
+    | zero => simp [run] at hoof
+    | succ f =>
+      have ht : ∀ t, rb'.kind = .ref t → t ≠ r := by
+        intro t hkk; rw [e4, hrk] at hkk; cases hkk; exact hxr
+      have hpr : rb'.parent ≠ some r := by
+        rw [e1]; intro e
+        obtain ⟨po, hpo, hpk, -⟩ := i.wf.parentLive r rb r hr e
+        rw [hr] at hpo; cases hpo; exact hrnp hpk
+      obtain ⟨-, c2⟩ := run_free_leaf cfg f _ r rb' hr' (e4 ▸ hrnp) (e2 ▸ lc) (e3 ▸ lr) (e5 ▸ lp) (e6 ▸ ld) ht hpr
+      have hs := run_free_leaf_stuck cfg f _ r rb' hr' (e4 ▸ hrnp) (e2 ▸ lc) (e3 ▸ lr) (e5 ▸ lp) (e6 ▸ ld) ht hpr
+      refine ⟨by rw [hs, (frame_promoteMove cfg s x xb rb rest (orNull s ctx)).stuck]; exact hst, ?_⟩
+      have hcomm : ShapeEq (moveS (freeLeafS s r) x rb.parent false)
+          (run cfg (f + 1) (promoteMove cfg s x xb rb rest (orNull s ctx)) (.free r)).1 := by
+        refine ShapeEq.trans ?_ c2
+        refine ShapeEq.trans ?_ (shapeEq_freeLeafS hps r)
+        refine shapeEq_get_eq ?_ (fun j => promote_comm i.wf hx hxk hrefs hnp hr hq hself j)
+        rw [nullCtx_freeLeafS, nullCtx_moveS, nullCtx_freeLeafS]
+        unfold promoteS; simp
+      exact (keeps_promote i.wf hx hxk hr hrk rest hq hself (not_outside_self s x)
+        (fun h => h.2 ⟨rb, x, hr, hrk⟩)).trans (Keeps.of_shapeEq _ hcomm)
+
 end Usual.C01
